@@ -25,7 +25,13 @@ METHODS = {
     "put_reset_token_parameter": ("token", V("resettoken", "t"), "(t : Bytes)", "token: &ResetToken"),
     "put_varint_parameter": ("value", V("varint", "n"), "(n : Nat)", "value: &VarInt"),
     "put_duration_parameter": ("dur", V("duration", "ms"), "(ms : Nat)", "dur: &Duration"),
+    # the PreferredAddress value is the opaque byte image of Model/Addr (`PVal.pref b`): `addr.encoding_size()` is the
+    # image length and `put_preferred_address(addr)` writes the image (both proved about the Addr model in Props/C05/Addr)
+    "put_preferred_address_parameter": ("addr", V("prefimg", "b"), "(b : Bytes)", "addr: &PreferredAddress"),
 }
+VARIANT = {"Bytes": (".bytes x", "put_bytes_parameter"), "ConnectionId": (".cid x", "put_cid_parameter"), "Duration": (".dur x", "put_duration_parameter"),
+           "True": (".tru", "put_bool_parameter"), "PreferredAddress": (".pref x", "put_preferred_address_parameter"),
+           "ResetToken": (".token x", "put_reset_token_parameter"), "VarInt": (".varint x", "put_varint_parameter")}
 DISPATCH = r"""fn put_parameter\(&mut self, id: ParameterId, value: &ParameterValue\) \{\s*match value \{\s*ParameterValue::Bytes\(bytes\) => self\.put_bytes_parameter\(id, bytes\),\s*ParameterValue::ConnectionId\(cid\) => self\.put_cid_parameter\(id, cid\),\s*ParameterValue::Duration\(dur\) => self\.put_duration_parameter\(id, dur\),\s*ParameterValue::True => self\.put_bool_parameter\(id\),\s*ParameterValue::PreferredAddress\(addr\) => \{\s*self\.put_preferred_address_parameter\(id, addr\)\s*\}\s*ParameterValue::ResetToken\(token\) => self\.put_reset_token_parameter\(id, token\),\s*ParameterValue::VarInt\(varint\) => self\.put_varint_parameter\(id, varint\),\s*\}\s*\}"""
 
 
@@ -34,10 +40,9 @@ def generate(g):
     src = FC.src_of(g, IO)
     tok = FC.src_of(g, "qbase/src/token.rs")
     L = lean_header("GmQuic.Gen.ParamCodec")
-    L[1:1] = ["import GmQuic.Model.Wire"]
-    L += ["set_option linter.unusedVariables false", "open GmQuic.Wire", ""]
+    L[1:1] = ["import GmQuic.Model.Params"]
+    L += ["set_option linter.unusedVariables false", "open GmQuic.Wire GmQuic.Params", ""]
     for rel, text, rx in ((IO, src, r"fn put_parameter_id\(&mut self, param_id: ParameterId\) \{\s*self\.put_varint\(&VarInt::from\(param_id\)\);\s*\}"),
-                          (IO, src, DISPATCH),
                           ("qbase/src/token.rs", tok, r"fn put_reset_token\(&mut self, token: &ResetToken\) \{\s*self\.put_slice\(token\.as_slice\(\)\);\s*\}")):
         if not re.search(rx, text, re.S):
             g.untranslated.append(f"ParamCodec: shape guard failed in {rel}: /{rx[:50]}…/")
@@ -63,6 +68,8 @@ def generate(g):
                 return ["encVarint id"]
             if name == "put_reset_token" and len(args) == 1 and args[0].kind == "resettoken":
                 return [args[0].term]
+            if name == "put_preferred_address" and len(args) == 1 and args[0].kind == "prefimg":
+                return [args[0].term]
             if name in METHODS and depth == 0 and len(args) == 2 and args[0].kind == "paramid" and args[1].kind == "varint" and name == "put_varint_parameter":
                 return translate(name, args[1], depth + 1)
             return None
@@ -80,6 +87,41 @@ def generate(g):
             items.append(nm)
         except Outside as ex:
             g.untranslated.append(f"{method}: {ex}")
+    # ---- put_parameter (dispatch on the value) and put_parameters (iteration over the map)
+    try:
+        body = find_body(trait, r"fn put_parameter\(&mut self, id: ParameterId, value: &ParameterValue\) \{", "put_parameter")[0]
+        b = parse_block(body)
+        if b[1] or b[2] is None or b[2][0] != "match" or b[2][1] != ("path", ["value"]):
+            raise Outside("put_parameter is not `match value`")
+        arms = []
+        for pat, e in b[2][2]:
+            if e[0] == "block" and not e[1]:
+                e = e[2]
+            if pat[0] != "pctor" or pat[1][0] != "ParameterValue" or pat[1][1] not in VARIANT:
+                raise Outside(f"put_parameter arm pattern {pat}")
+            ctor, _ = VARIANT[pat[1][1]]
+            binders = [p[1] for p in (pat[2] or [])]
+            want_args = [("path", ["id"])] + [("path", [x]) for x in binders]
+            if e[0] != "mcall" or e[1] != ("path", ["self"]) or e[2] not in METHODS or e[3] != want_args:
+                raise Outside(f"put_parameter arm {pat[1][1]} is not `self.put_<kind>_parameter(id, <binder>)`")
+            nm = "penc_" + e[2][len("put_"):-len("_parameter")]
+            if nm not in items:
+                raise Outside(f"put_parameter arm {pat[1][1]} calls `{e[2]}`, which was not translated")
+            arms.append(f"  | {ctor} => {nm} id" + (" x" if binders else ""))
+        if len(arms) != len(VARIANT):
+            raise Outside("put_parameter does not have one arm per ParameterValue variant")
+        L += [f"/-- {IO} `WriteParameter::put_parameter` -/", "def penc (id : Nat) : PVal → Bytes"] + arms + [""]
+        items.append("penc")
+        body = FC.fn_body(src, r"impl<Role, T: bytes::BufMut> WriteParameters<Role> for T \{", r"fn put_parameters\(&mut self, params: &Parameters<Role>\) \{", "put_parameters")
+        b = parse_block(body)
+        want = ("for", ("ptuple", [("pbind", "id"), ("pbind", "value")]), ("ref", ("field", ("path", ["params"]), "map")),
+                ("block", [("expr", ("mcall", ("path", ["self"]), "put_parameter", [("deref", ("path", ["id"])), ("path", ["value"])]))], None))
+        if b[1] != [want] or b[2] is not None:
+            raise Outside("put_parameters is not `for (id, value) in &params.map { self.put_parameter(*id, value); }`")
+        L += [f"/-- {IO} `WriteParameters::put_parameters`, for the iteration order `m` of the map -/", "def penc_all (m : PMap) : Bytes :=", "  m.flatMap fun e => penc e.1 e.2", ""]
+        items.append("penc_all")
+    except Outside as ex:
+        g.untranslated.append(f"put_parameter(s): {ex}")
     L += ["end GmQuic.Gen.ParamCodec", ""]
     g.extra_items = items
     return "\n".join(L)
